@@ -14,6 +14,7 @@ open Lean D2V.Drv D2V.Quote D2V.Gen.Quote
   `oracle`         Spec-on-impl: a label written with d2oracle.Set
                    on a shape and on a connection reads back equal to `s` from the recompiled graph.
   `unitab`         the Unicode facts behind `isSpace`, `lowerChar`, `foldKey`.
+  `fixflags`       the closed Boolean hypotheses of the full theorems (`keyFixApplied`, `valueFixApplied`).
 -/
 
 namespace D2V.Drv.C05
@@ -255,6 +256,14 @@ def handle (j : Json) : Except String Verdict := do
     | some (sig, d) => return .mismatch sig (clean d)
     | none => return .ok
   | "oracle" => handleOracle j
+  | "fixflags" =>
+    -- the hypotheses of the full theorems C05_key_roundtrip / C05_value_roundtrip, evaluated on the regenerated tables
+    let part ← getStr (← getObj j "in") "part"
+    if part == "key" && !keyFixApplied then
+      return .specfalse "fix-missing-key" "class=fix-flag keyFixApplied is false: RawString does not quote keys that match a reserved keyword only case-insensitively, or escapeUnquotedValue rewrites a null key (witnesses: Label, NULL)"
+    if part == "value" && !valueFixApplied then
+      return .specfalse "fix-missing-value" "class=fix-flag valueFixApplied is false: RawString leaves case variants of null/true/false/suspend/unsuspend unquoted, or the printer lower-cases values (witnesses: NULL, TRUE, Suspend, Label)"
+    return .ok
   | "unitab" => handleUnitab j
   | _ => return .bad s!"unknown kind {k}"
 
